@@ -94,6 +94,17 @@ def main():
                 return 2
             d1, o1 = sh(PY + ' SEED/demo.py', cwd=wt, env=env, timeout=900)
             after = suite(wt)
+            # tests that listen on fixed ports flake when several suites run
+            # at once: re-run whatever is missing, alone, up to 3 times
+            for tid in [t for t in base if t not in after]:
+                for _k in range(3):
+                    rc_t, _o = sh(PY + ' -m pytest -q -p no:cacheprovider '
+                                  '--timeout=900 "%s"' % tid, cwd=wt, env=env,
+                                  timeout=900)
+                    if rc_t == 0:
+                        after = sorted(set(after + [tid]))
+                        break
+                    time.sleep(5)
             ran['demo_unchanged_exit'] = d0
             ran['demo_changed_exit'] = d1
             ran['demo_changed_tail'] = o1[-600:]
